@@ -3,11 +3,11 @@
 # verifies a seeded change produced in /tmp/wt-<ID>/_out, then runs the quick check against it.
 set -u
 id=$1; pkg=$2; shift 2; extra="$*"
-wt=/tmp/wt-$id; out=$wt/_out
+wt=${WT:-/tmp/wt-$id}; out=$wt/_out
 export GOFLAGS=-mod=mod; unset GOTOOLCHAIN GOSUMDB GOPROXY
 cd $wt || exit 3
 git checkout -q -- . ; git clean -fdq -e _out
-res=/verif/seeded/$id; mkdir -p $res
+res=/verif/seeded/${OUTID:-$id}; mkdir -p $res
 cp $out/patch.diff $res/patch.diff; cp $out/README.md $res/README.agent.md 2>/dev/null
 demo=$(ls $out/demo*_test.go 2>/dev/null | head -1)
 [ -n "$demo" ] && cp $demo $res/
